@@ -46,26 +46,28 @@ Proof.
   cbn [forallb]. unfold entry_ok at 1. cbn [fst snd]. rewrite IH. reflexivity.
 Qed.
 
-Definition entry_depth (kv : owned * owned) : nat := Nat.max (odepth (fst kv)) (odepth (snd kv)).
+Definition entry_depth (kv : owned * owned) : nat := S (Nat.max (odepth (fst kv)) (odepth (snd kv))).
 
-Lemma odepth_table l : odepth (OTable l) = S (list_max (map entry_depth l)).
+Lemma odepth_table l : odepth (OTable l) = list_max (map entry_depth l).
 Proof.
-  cbn [odepth]. f_equal. induction l as [|[k v] l IH]; [reflexivity|].
-  cbn [map list_max]. unfold entry_depth at 1. cbn [fst snd]. rewrite IH. reflexivity.
+  cbn [odepth]. induction l as [|[k v] l IH]; [reflexivity|].
+  cbn [map]. change (list_max (entry_depth (k, v) :: map entry_depth l))
+      with (Nat.max (entry_depth (k, v)) (list_max (map entry_depth l))).
+  unfold entry_depth at 1. cbn [fst snd]. rewrite IH. reflexivity.
 Qed.
 
 Lemma odepth_table_lt l d : odepth (OTable l) <= d <->
-  0 < d /\ Forall (fun kv => odepth (fst kv) < d /\ odepth (snd kv) < d) l.
+  Forall (fun kv => odepth (fst kv) < d /\ odepth (snd kv) < d) l.
 Proof.
   rewrite odepth_table. induction l as [|[k v] l IH]; cbn [map].
-  - cbn. split; [intros; split; [lia | constructor] | intros; lia].
+  - cbn. split; [intros; constructor | intros; lia].
   - change (list_max (entry_depth (k, v) :: map entry_depth l))
       with (Nat.max (entry_depth (k, v)) (list_max (map entry_depth l))).
     unfold entry_depth at 1. cbn [fst snd]. split.
-    + intros H. assert (H' : S (list_max (map entry_depth l)) <= d) by lia.
-      apply IH in H'. destruct H' as (Hd & Hl). split; [exact Hd|]. constructor; [cbn [fst snd]; lia | exact Hl].
-    + intros (Hd & Hl). inversion Hl as [|? ? (H1 & H2) Hl']; subst. cbn [fst snd] in *.
-      assert (H' : S (list_max (map entry_depth l)) <= d) by (apply IH; split; assumption). lia.
+    + intros H. assert (H' : list_max (map entry_depth l) <= d) by lia.
+      apply IH in H'. constructor; [cbn [fst snd]; lia | exact H'].
+    + intros Hl. inversion Hl as [|? ? (H1 & H2) Hl']; subst. cbn [fst snd] in *.
+      assert (H' : list_max (map entry_depth l) <= d) by (apply IH; assumption). lia.
 Qed.
 
 Lemma otree_table F l :
@@ -264,7 +266,8 @@ Qed.
 
 Definition insert_post (o : owned) : Prop :=
   owned_ok F o = true -> forall h, exists h' v,
-    insert_owned F h o = IOk h' v /\ hpres h h' /\ repr (length h) h' v o.
+    insert_owned F h o = IOk h' v /\ hpres h h' /\ repr (length h) h' v o /\
+    (tables_wf F h -> tables_wf F h').
 
 Lemma forallb_entry_app l1 l2 :
   forallb (entry_ok F) (l1 ++ l2) = true -> forallb (entry_ok F) l1 = true /\ forallb (entry_ok F) l2 = true.
@@ -279,11 +282,12 @@ Lemma insert_rows_spec a : forall rest done h t,
   exists h' t',
     insert_rows F a rest h = IOk h' (VObj a) /\ lstep a h h' /\
     hget h' a = Some (Vm.OTable t') /\ twf (veq h') (dom h') t' /\
-    Forall2 (repr_entry (S (N.to_nat a)) h') (tmap t') (done ++ rest).
+    Forall2 (repr_entry (S (N.to_nat a)) h') (tmap t') (done ++ rest) /\
+    (tables_wf F h -> tables_wf F h').
 Proof.
   induction rest as [|[k w] rest IH]; intros done h t HP Hok Hdis Ha Hw Hr.
   - exists h, t. rewrite app_nil_r. cbn [insert_rows].
-    split; [reflexivity|]. split; [split; auto|]. split; [exact Ha|]. split; [exact Hw | exact Hr].
+    split; [reflexivity|]. split; [split; auto|]. split; [exact Ha|]. split; [exact Hw|]. split; [exact Hr | auto].
   - inversion HP as [|? ? (Pk & Pw) HP']; subst. cbn [fst snd] in Pk, Pw.
     assert (Hok' := Hok). apply forallb_entry_app in Hok'. destruct Hok' as (Hok1 & Hok2).
     cbn [forallb] in Hok2. apply andb_prop in Hok2. destruct Hok2 as (Hkw & Hok2).
@@ -291,8 +295,8 @@ Proof.
     assert (La : S (N.to_nat a) <= length h) by (apply hget_some_lt in Ha; lia).
     (* the key, then the value *)
     assert (Kk' : owned_ok F k = true) by (destruct k; try reflexivity; discriminate).
-    destruct (Pk Kk' h) as (h2 & kv & E2 & P2 & R2).
-    destruct (Pw Kw h2) as (h3 & wv & E3 & P3 & R3).
+    destruct (Pk Kk' h) as (h2 & kv & E2 & P2 & R2 & W2).
+    destruct (Pw Kw h2) as (h3 & wv & E3 & P3 & R3 & W3).
     cbn [insert_rows]. rewrite E2, E3.
     assert (P13 : hpres h h3) by (eapply hpres_trans; eauto).
     assert (Ha3 : hget h3 a = Some (Vm.OTable t)) by (apply P13, Ha).
@@ -330,11 +334,14 @@ Proof.
     { rewrite Habs. apply Forall2_app.
       - eapply Forall2_imp; [|exact Hr3]. intros x y (A & B). split; eapply repr_frame; eauto.
       - constructor; [|constructor]. split; cbn [fst snd]; eapply repr_frame; eauto. }
-    destruct (IH (done ++ [(k, w)]) h4 t') as (h' & t'' & E' & S' & Ha' & Hw'' & Hr'); auto.
+    assert (W4 : tables_wf F h3 -> tables_wf F h4).
+    { apply (good_hset F h3 a (Vm.OTable t) (Vm.OTable t') Ha3 I).
+      intros t0 Heq _. inversion Heq; subst t0. exact Hw'. }
+    destruct (IH (done ++ [(k, w)]) h4 t') as (h' & t'' & E' & S' & Ha' & Hw'' & Hr' & W'); auto.
     + rewrite <- app_assoc. exact Hok.
     + rewrite <- app_assoc. exact Hdis.
     + exists h', t''. rewrite <- app_assoc in Hr'.
-      split; [exact E'|]. split; [|split; [exact Ha'|split; [exact Hw'' | exact Hr']]].
+      split; [exact E'|]. split; [|split; [exact Ha'|split; [exact Hw'' | split; [exact Hr' | auto]]]].
       split.
       * destruct S' as (L' & _). destruct S34 as (L34 & _). destruct P13 as (L13 & _). lia.
       * intros b x Hne Hb. apply S'; [exact Hne|]. apply S34; [exact Hne|]. apply P13, Hb.
@@ -343,15 +350,17 @@ Qed.
 Lemma insert_owned_spec : forall o, insert_post o.
 Proof.
   induction o as [| | | |l IH] using owned_ind'; intros Hok h.
-  - exists h, VNil. repeat split; auto.
-  - exists h, (VInt z). repeat split; auto.
-  - exists h, (VReal r). repeat split; auto.
+  - exists h, VNil. cbn [insert_owned repr]. split; [reflexivity|]. split; [apply hpres_refl|]. split; [reflexivity | auto].
+  - exists h, (VInt z). cbn [insert_owned repr]. split; [reflexivity|]. split; [apply hpres_refl|]. split; [reflexivity | auto].
+  - exists h, (VReal r). cbn [insert_owned repr]. split; [reflexivity|]. split; [apply hpres_refl|]. split; [reflexivity | auto].
   - exists (h ++ [Vm.OStr s]), (VObj (N.of_nat (length h))). split; [reflexivity|].
-    split; [apply hpres_alloc|]. cbn [repr]. eexists. split; [reflexivity|].
-    rewrite Nat2N.id. split; [lia | apply hget_app_new].
+    split; [apply hpres_alloc|]. split.
+    + cbn [repr]. eexists. split; [reflexivity|].
+      rewrite Nat2N.id. split; [lia | apply hget_app_new].
+    + apply (good_alloc F h (Vm.OStr s)). intros t Heq. discriminate Heq.
   - rewrite insert_owned_table. rewrite owned_ok_table in Hok. apply andb_prop in Hok. destruct Hok as (Hok & Hdis).
     set (a := N.of_nat (length h)). set (h1 := h ++ [Vm.OTable (mkTable [] [])]).
-    destruct (insert_rows_spec a l [] h1 (mkTable [] [])) as (h' & t' & E & S' & Ha' & Hw' & Hr'); auto.
+    destruct (insert_rows_spec a l [] h1 (mkTable [] [])) as (h' & t' & E & S' & Ha' & Hw' & Hr' & W'); auto.
     + apply hget_app_new.
     + apply twf_empty_vm.
     + cbn [tmap]. constructor.
@@ -361,9 +370,221 @@ Proof.
       * destruct S' as (L' & Sp). split; [unfold h1 in L'; rewrite app_length in L'; lia|].
         intros b x Hb. apply Sp; [|apply hget_app_old, Hb].
         intros ->. apply hget_some_lt in Hb. lia.
-      * apply repr_table. exists a, t'. split; [reflexivity|]. split; [lia|]. split; [exact Ha'|].
-        split; [exact Hw'|]. eapply Forall2_imp; [|exact Hr'].
-        intros x y (A & B). split; eapply repr_lo_mono; try eassumption; lia.
+      * split.
+        { apply repr_table. exists a, t'. split; [reflexivity|]. split; [lia|]. split; [exact Ha'|].
+          split; [exact Hw'|]. eapply Forall2_imp; [|exact Hr'].
+          intros x y (A & B). split; eapply repr_lo_mono; try eassumption; lia. }
+        intros W. apply W'. apply (good_alloc F h (Vm.OTable (mkTable [] []))); [|exact W].
+        intros t0 Heq. inversion Heq. apply twf_empty_vm.
+Qed.
+
+(* ------------------------------------------------------------------ *)
+(* try_from                                                            *)
+(* ------------------------------------------------------------------ *)
+
+(* the entry loop of try_from = the conversion, entry by entry, of what `iter` yields *)
+Definition conv_entry (rec : value -> cvres owned) (kv : value * value) (oo : owned * owned) : Prop :=
+  rec (fst kv) = CvOk (fst oo) /\ rec (snd kv) = CvOk (snd oo).
+
+Lemma owned_rows_ok rec eq m ks : forall l,
+  owned_rows rec eq m ks = CvOk l ->
+  exists m', titer_go eq m ks = Some m' /\ Forall2 (conv_entry rec) m' l.
+Proof.
+  induction ks as [|k ks IH]; intros l; cbn [owned_rows titer_go].
+  - intros H. inversion H. exists []. split; [reflexivity | constructor].
+  - destruct (map_find eq k m) as [[[i v]|]|]; try discriminate.
+    + destruct (rec k) as [ok| | | |] eqn:Ek; cbn [cv_bind]; try discriminate.
+      destruct (rec v) as [ov| | | |] eqn:Ev; cbn [cv_bind]; try discriminate.
+      destruct (owned_rows rec eq m ks) as [l'| | | |]; cbn [cv_bind]; try discriminate.
+      intros H. inversion H; subst. destruct (IH l' eq_refl) as (m' & -> & HF).
+      exists ((k, v) :: m'). split; [reflexivity|]. constructor; [split; assumption | exact HF].
+    + intros H. destruct (IH l H) as (m' & -> & HF). exists m'. split; [reflexivity | exact HF].
+Qed.
+
+Lemma owned_rows_of_titer rec eq m ks : forall m' l,
+  titer_go eq m ks = Some m' -> Forall2 (conv_entry rec) m' l -> owned_rows rec eq m ks = CvOk l.
+Proof.
+  induction ks as [|k ks IH]; intros m' l; cbn [owned_rows titer_go].
+  - intros H HF. inversion H; subst. inversion HF. reflexivity.
+  - destruct (map_find eq k m) as [[[i v]|]|]; try discriminate.
+    + destruct (titer_go eq m ks) as [m''|]; try discriminate. intros H HF. inversion H; subst.
+      inversion HF as [|? oo ? l' (H1 & H2) HF']; subst. cbn [fst snd] in H1, H2.
+      rewrite H1, H2. cbn [cv_bind]. rewrite (IH m'' l' eq_refl HF'). cbn [cv_bind].
+      destruct oo; reflexivity.
+    + destruct (titer_go eq m ks) as [m''|]; try discriminate. intros H HF. inversion H; subst.
+      apply (IH m' l eq_refl HF).
+Qed.
+
+Lemma repr_owned_of : forall o lo h v, repr lo h v o ->
+  forall fuel, odepth o < fuel -> owned_of F fuel h v = CvOk o.
+Proof.
+  induction o as [| | | |l IH] using owned_ind'; intros lo h v H fuel Hf;
+    (destruct fuel as [|f]; [lia|]).
+  - cbn [repr] in H. subst. reflexivity.
+  - cbn [repr] in H. subst. reflexivity.
+  - cbn [repr] in H. subst. reflexivity.
+  - cbn [repr] in H. destruct H as (a & -> & _ & Ha). cbn [owned_of]. rewrite Ha. reflexivity.
+  - apply repr_table in H. destruct H as (a & t & -> & _ & Ha & Hw & Hr).
+    cbn [owned_of]. rewrite Ha.
+    rewrite (owned_rows_of_titer (owned_of F f h) (veq h) (tmap t) (tkeys t) (tmap t) l); [reflexivity | |].
+    + apply (vm_titer F h t Hw).
+    + assert (Hd : odepth (OTable l) <= f) by lia. apply odepth_table_lt in Hd.
+      revert IH Hd. clear - Hr. induction Hr as [|kv oo m l (H1 & H2) Hr IHr]; intros IH Hd; constructor.
+      * inversion IH as [|? ? (I1 & I2) _]; subst. inversion Hd as [|? ? (D1 & D2) _]; subst.
+        split; [eapply I1 | eapply I2]; eauto.
+      * apply IHr; [inversion IH | inversion Hd]; assumption.
+Qed.
+
+(* insert_value then try_from: the owned value comes back, entry order included; the heap that existed is a
+   prefix of the new heap *)
+Theorem owned_roundtrip : forall o h, owned_ok F o = true ->
+  exists h' v, insert_owned F h o = IOk h' v /\ (exists ext, h' = h ++ ext) /\
+    forall fuel, odepth o < fuel -> owned_of F fuel h' v = CvOk o.
+Proof.
+  intros o h Hok. destruct (insert_owned_spec o Hok h) as (h' & v & E & Hp & Hr & _).
+  exists h', v. split; [exact E|]. split; [apply hpres_prefix, Hp|].
+  intros fuel Hf. eapply repr_owned_of; eauto.
+Qed.
+
+(* insert_value keeps the C07 table invariant of the heap (the VM can go on with the new heap) *)
+Theorem insert_owned_tables_wf : forall o h h' v, owned_ok F o = true -> tables_wf F h ->
+  insert_owned F h o = IOk h' v -> tables_wf F h'.
+Proof.
+  intros o h h' v Hok W E. destruct (insert_owned_spec o Hok h) as (h'' & v' & E' & _ & _ & W').
+  rewrite E in E'. inversion E'; subst. apply W', W.
+Qed.
+
+Corollary insert_owned_no_ub : forall o h, owned_ok F o = true -> insert_owned F h o <> IUb.
+Proof. intros o h Hok. destruct (owned_roundtrip o h Hok) as (h' & v & -> & _). discriminate. Qed.
+
+(* the fuel try_from needs is the nesting depth of its answer *)
+Lemma owned_of_depth : forall fuel h v o, owned_of F fuel h v = CvOk o -> odepth o < fuel.
+Proof.
+  induction fuel as [|f IH]; intros h v o; cbn [owned_of]; [discriminate|].
+  destruct v as [|z|r|a]; try (intros H; inversion H; cbn [odepth]; lia).
+  destruct (hget h a) as [[t|s|? ?|?|? ? ?|?]|]; try discriminate.
+  - destruct (owned_rows (owned_of F f h) (veq h) (tmap t) (tkeys t)) as [l| | | |] eqn:Er;
+      cbn [cv_bind]; try discriminate.
+    intros H. inversion H; subst. apply owned_rows_ok in Er. destruct Er as (m' & _ & HF).
+    assert (Hd : odepth (OTable l) <= f); [|lia].
+    apply odepth_table_lt.
+    clear - HF IH. induction HF as [|kv oo m l (H1 & H2) HF IHF]; constructor; auto.
+    split; eapply IH; eauto.
+  - intros H. inversion H. cbn [odepth]. lia.
+Qed.
+
+(* the answer does not depend on the fuel once there is enough of it *)
+Lemma owned_of_fuel : forall f1 h v o, owned_of F f1 h v = CvOk o ->
+  forall f2, odepth o < f2 -> owned_of F f2 h v = CvOk o.
+Proof.
+  induction f1 as [|f1 IH]; intros h v o; cbn [owned_of]; [discriminate|].
+  intros H f2 Hf. destruct f2 as [|f2]; [lia|]. cbn [owned_of].
+  destruct v as [|z|r|a]; try exact H.
+  destruct (hget h a) as [[t|s|? ?|?|? ? ?|?]|]; try exact H.
+  destruct (owned_rows (owned_of F f1 h) (veq h) (tmap t) (tkeys t)) as [l| | | |] eqn:Er;
+    cbn [cv_bind] in H; try discriminate.
+  inversion H; subst. apply owned_rows_ok in Er. destruct Er as (m' & Et & HF).
+  rewrite (owned_rows_of_titer (owned_of F f2 h) (veq h) (tmap t) (tkeys t) m' l Et); [reflexivity|].
+  assert (Hd : odepth (OTable l) <= f2) by lia. apply odepth_table_lt in Hd.
+  clear - HF IH Hd. induction HF as [|kv oo m l (H1 & H2) HF IHF]; constructor.
+  - inversion Hd as [|? ? (D1 & D2) _]; subst. split; eapply IH; eauto.
+  - apply IHF. inversion Hd; assumption.
+Qed.
+
+(* a key of the C07 key domain converts to an admissible owned key *)
+Lemma owned_of_key fuel h v k : owned_of F fuel h v = CvOk k -> dom h v ->
+  okey_ok F k = true /\ repr 0 h v k.
+Proof.
+  destruct fuel as [|f]; [discriminate|]. cbn [owned_of].
+  destruct v as [|z|r|a]; cbn [vkey].
+  - intros H _. inversion H. split; reflexivity.
+  - intros H _. inversion H. split; reflexivity.
+  - intros H Hr. inversion H. cbn [okey_ok repr]. rewrite Hr. split; reflexivity.
+  - destruct (hget h a) as [[t|s|? ?|?|? ? ?|?]|] eqn:Ha; try discriminate; try contradiction.
+    intros H _. inversion H. cbn [okey_ok repr]. split; [reflexivity|].
+    exists a. split; [reflexivity|]. split; [lia | exact Ha].
+Qed.
+
+Lemma conv_nomatch f h m l kv k :
+  Forall2 (conv_entry (owned_of F f h)) m l -> Forall (dom h) (map fst m) ->
+  owned_of F f h kv = CvOk k -> dom h kv ->
+  Forall (fun k' => kb (veq h) kv k' = false) (map fst m) ->
+  forallb (fun k' => negb (okb F k k')) (map fst l) = true.
+Proof.
+  intros HF. induction HF as [|e oo m l (H1 & _) HF IH]; cbn [map forallb]; intros HD Hk Dk HN; [reflexivity|].
+  inversion HD; subst. inversion HN; subst.
+  destruct (owned_of_key _ _ _ _ Hk Dk) as (K1 & R1).
+  destruct (owned_of_key _ _ _ _ H1 ltac:(assumption)) as (K2 & R2).
+  rewrite <- (repr_kb _ _ _ _ _ _ R1 R2 K1 K2).
+  apply andb_true_intro. split; [|apply IH; assumption].
+  match goal with X : kb _ _ _ = false |- _ => rewrite X end. reflexivity.
+Qed.
+
+(* in a heap whose tables satisfy the C07 invariant, try_from answers values of the round-trip class *)
+Lemma owned_of_ok h : tables_wf F h ->
+  forall fuel v o, owned_of F fuel h v = CvOk o -> owned_ok F o = true.
+Proof.
+  intros W. induction fuel as [|f IH]; intros v o; cbn [owned_of]; [discriminate|].
+  destruct v as [|z|r|a]; try (intros H; inversion H; reflexivity).
+  destruct (hget h a) as [[t|s|? ?|?|? ? ?|?]|] eqn:Ha; try discriminate;
+    [|intros H; inversion H; reflexivity].
+  destruct (owned_rows (owned_of F f h) (veq h) (tmap t) (tkeys t)) as [l| | | |] eqn:Er;
+    cbn [cv_bind]; try discriminate.
+  intros H. inversion H; subst. apply owned_rows_ok in Er. destruct Er as (m' & Et & HF).
+  pose proof (W a t Ha) as Hw. pose proof (vm_titer F h t Hw) as Ht. unfold titer in Ht.
+  rewrite Ht in Et. inversion Et; subst m'. unfold tabs in HF.
+  destruct Hw as (Hk & HD & Hn). rewrite <- Hk in HD, Hn.
+  rewrite owned_ok_table. apply andb_true_intro. split.
+  - clear - HF HD IH. induction HF as [|e oo m l (H1 & H2) HF IHF]; [reflexivity|].
+    cbn [map] in HD. inversion HD; subst. cbn [forallb]. apply andb_true_intro. split; [|apply IHF; assumption].
+    unfold entry_ok. apply andb_true_intro. split; [|eapply IH; eauto].
+    eapply owned_of_key; eauto.
+  - clear - HF HD Hn. induction HF as [|e oo m l (H1 & H2) HF IHF]; [reflexivity|].
+    cbn [map] in HD, Hn |- *. inversion HD; subst. cbn [kdistinct] in Hn. destruct Hn as (Hn1 & Hn2).
+    cbn [okeys_distinct]. apply andb_true_intro. split; [|apply IHF; assumption].
+    eapply conv_nomatch; eauto.
+Qed.
+
+(* the canonical tree of the VM model (Vm.to_tree, the deep view the correspondence checks compare) is a
+   function of the owned form *)
+Lemma owned_of_tree : forall fuel h v o, owned_of F fuel h v = CvOk o -> to_tree F fuel h v = otree F o.
+Proof.
+  induction fuel as [|f IH]; intros h v o; cbn [owned_of to_tree]; [discriminate|].
+  destruct v as [|z|r|a]; try (intros H; inversion H; reflexivity).
+  destruct (hget h a) as [[t|s|? ?|?|? ? ?|?]|] eqn:Ha; try discriminate;
+    [|intros H; inversion H; reflexivity].
+  destruct (owned_rows (owned_of F f h) (veq h) (tmap t) (tkeys t)) as [l| | | |] eqn:Er;
+    cbn [cv_bind]; try discriminate.
+  intros H. inversion H; subst. apply owned_rows_ok in Er. destruct Er as (m' & Et & HF).
+  unfold titer. rewrite Et. rewrite otree_table. f_equal.
+  clear - HF IH. induction HF as [|e oo m l (H1 & H2) HF IHF]; [reflexivity|].
+  cbn [map]. rewrite IHF, (IH _ _ _ H1), (IH _ _ _ H2). reflexivity.
+Qed.
+
+(* a value of one heap, converted and inserted into any other heap: same owned form, same canonical tree *)
+Theorem value_roundtrip : forall h v fuel o h2,
+  tables_wf F h -> owned_of F fuel h v = CvOk o ->
+  exists h2' v2, insert_owned F h2 o = IOk h2' v2 /\ (exists ext, h2' = h2 ++ ext) /\
+    owned_of F fuel h2' v2 = CvOk o /\ to_tree F fuel h2' v2 = to_tree F fuel h v.
+Proof.
+  intros h v fuel o h2 W H.
+  destruct (owned_roundtrip o h2 (owned_of_ok h W fuel v o H)) as (h2' & v2 & E & Hp & Hr).
+  exists h2', v2. split; [exact E|]. split; [exact Hp|].
+  specialize (Hr fuel (owned_of_depth _ _ _ _ H)). split; [exact Hr|].
+  rewrite (owned_of_tree _ _ _ _ Hr), (owned_of_tree _ _ _ _ H). reflexivity.
+Qed.
+
+(* why NaN keys are excluded: the row is stored and never read again *)
+Lemma nan_key_lost : forall r h w, f_cmp F r r <> Some Eq ->
+  exists h' v, insert_owned F h (OTable [(OReal r, OInt w)]) = IOk h' v /\
+    forall fuel, owned_of F (S fuel) h' v = CvOk (OTable []).
+Proof.
+  intros r h w Hr. rewrite insert_owned_table. cbn [insert_rows insert_owned].
+  rewrite hget_app_new. cbn [tinsert tmap tkeys map_find app].
+  eexists _, _. split; [reflexivity|]. intros fuel. cbn [owned_of].
+  erewrite hget_hset_same by apply hget_app_new.
+  cbn [tmap tkeys owned_rows map_find keq]. rewrite N.eqb_refl, veq0_unfold. generalize 23. intros f.
+  cbn [Vm.veq]. destruct (f_cmp F r r) as [[]|]; try reflexivity. congruence.
 Qed.
 
 End OwnedProofs.
